@@ -65,7 +65,7 @@ def base_forms(tier):
                              "entities": [{"list_name": "trees", "label": "${q}"}]}))
     N = 4 if tier == "quick" else 5
     for i, forest in enumerate(forests_upto(N, 3)):
-        out.append((f"layout:{i}", {"survey": rows_from_forest(forest, ["a", "b", "c", "d"])}))
+        out.append((f"layout:{i}", {"survey": rows_from_forest(forest, ["a", "b", "c", "d", "e", "f", "g"])}))
     return out
 
 
